@@ -121,6 +121,7 @@ class Scheduler:
         self.holds = []
         self.holds_taken = 0
         self.visits = {}            # (thread name, point kind) -> number of visits so far
+        self.hold_log = []          # (virtual time, thread, kind, (function, line)) of every hold taken
         self.step_hook = None       # optional observer called at every scheduling point (must not block or schedule)
         self.quantum = 0            # library jumps executed since the last scheduling point (spin detection)
         self.spins = []
@@ -256,6 +257,7 @@ class Scheduler:
                     if h[5] == h[2] or (h[2] == 0 and h[5] <= SLOW_VISITS):
                         # the thread is simply not scheduled until the release predicate holds (or max delay passes)
                         self.holds_taken += 1
+                        self.hold_log.append((round(self.now, 4), cur.name, kind, line))
                         rel = h[3]
                         if isinstance(rel, tuple):
                             # ("until", thread, kind): released once that thread has passed a point of that kind again
